@@ -732,3 +732,272 @@ Proof.
     apply Nat.eqb_eq in B; subst. destruct I as (_ & _ & _ & _ & (_ & Q2 & _) & _). destruct (Q2 _ A) as (t' & A' & B').
     rewrite N in A'. inversion A'; subst. congruence.
 Qed.
+
+(* ------------------------------------------------------------------ changes to the poll table *)
+Lemma live_change_polls : forall st st' (P : Z -> Prop),
+  all_items st' = all_items st -> timers st' = timers st -> sigs st' = sigs st ->
+  (forall a, live_fd st' a -> live_fd st a \/ P a) ->
+  forall k a, live st' k a -> live st k a \/ (k = 2 /\ P a).
+Proof.
+  intros st st' P A T S H k a [[K L]|[[K L]|[[K L]|[K L]]]].
+  - left. left. split; [exact K|]. unfold live_job in *. rewrite A in L. exact L.
+  - left. right; left. split; [exact K|]. unfold live_timer in *. rewrite A, T in L. exact L.
+  - destruct (H a L) as [L'|L']; [left; right; right; left; auto|right; auto].
+  - left. right; right; right. split; [exact K|]. unfold live_sig in *. rewrite S in L. exact L.
+Qed.
+Lemma inv_set_polls : forall ps st, inv st ->
+  inv_p ps (next_uid st) ->
+  (forall i, In (QFd i) (all_items st) -> exists e, nth_error ps i = Some e /\ p_state e = Joblist) ->
+  (forall a, live_fd (set_polls ps st) a -> live_fd st a \/ ~ gone (out st) 2 a) ->
+  inv (set_polls ps st).
+Proof.
+  intros ps st (I0 & IT & IP & IS & IQ & IG & IR & IRA & IF) NP NQ NL. unfold inv.
+  change (next_uid (set_polls ps st)) with (next_uid st). change (timers (set_polls ps st)) with (timers st).
+  change (sigs (set_polls ps st)) with (sigs st). change (regs (set_polls ps st)) with (regs st).
+  change (fx (set_polls ps st)) with (fx st). change (polls (set_polls ps st)) with ps.
+  split; [exact I0|]. split; [exact IT|]. split; [exact NP|]. split; [exact IS|].
+  split; [|split; [|split; [exact IR|split; [exact IRA|exact IF]]]].
+  - destruct IQ as (Q1 & Q2 & Q3 & Q4 & Q5 & Q6 & Q7). unfold inv_q.
+    split; [exact Q1|]. split; [exact Q2|]. split; [exact NQ|]. split; [exact Q4|]. split; [exact Q5|]. split; [exact Q6|exact Q7].
+  - destruct IG as (G1 & G2 & G3). split; [exact G1|]. split; [|exact G3].
+    intros k a Hg Hl.
+    destruct (live_change_polls st (set_polls ps st) (fun a => ~ gone (out st) 2 a) eq_refl eq_refl eq_refl NL k a Hl) as [H|[K H]].
+    + exact (G2 k a Hg H).
+    + subst k. exact (H Hg).
+Qed.
+Lemma opframe_set_polls : forall ps st,
+  (forall i u, pparked st i u -> pparked (set_polls ps st) i u) -> opframe st (set_polls ps st).
+Proof.
+  intros ps st H. constructor.
+  - intros; apply Z.le_refl.
+  - intros i P. exact P.
+  - exact H.
+  - intros S; exact S.
+  - cbn; lia.
+  - exists []. reflexivity.
+Qed.
+
+(* a slot-wise transformation of the table that creates no registration *)
+Definition ptrans (st : state) (ps' : list pslot) : Prop :=
+  (forall j e', nth_error ps' j = Some e' -> exists e, nth_error (polls st) j = Some e /\ p_uid e' < next_uid st /\
+      (plive e' -> plive e /\ p_uid e' = p_uid e) /\ (p_fn e' = true -> p_state e' <> Empty)) /\
+  (forall j e, nth_error (polls st) j = Some e -> p_state e = Joblist -> In (QFd j) (all_items st) ->
+      exists e', nth_error ps' j = Some e' /\ p_state e' = Joblist).
+Lemma inv_ptrans : forall ps' st, inv st -> ptrans st ps' -> inv (set_polls ps' st) /\
+  (forall a, live_fd (set_polls ps' st) a -> exists j e e', nth_error (polls st) j = Some e /\ nth_error ps' j = Some e' /\
+                                                        plive e /\ plive e' /\ p_uid e = a).
+Proof.
+  intros ps' st I [A B]. pose proof I as (I0 & _ & (P1 & P2 & P3) & _ & (_ & _ & Q3 & _) & _).
+  assert (L : forall a, live_fd (set_polls ps' st) a -> exists j e e', nth_error (polls st) j = Some e /\ nth_error ps' j = Some e' /\
+                                                        plive e /\ plive e' /\ p_uid e = a).
+  { intros a (j & e' & N & U & Lv). cbn in N. destruct (A j e' N) as (e & N0 & _ & C & _). destruct (C Lv) as [C1 C2].
+    exists j, e, e'. repeat split; auto. congruence. }
+  split; [|exact L].
+  apply inv_set_polls; [exact I| | |].
+  - split; [|split].
+    + intros j e' N. destruct (A j e' N) as (e & _ & U & _). exact U.
+    + intros a b ea eb Na Nb La Lb E. destruct (A a ea Na) as (e1 & N1 & _ & C1 & _). destruct (A b eb Nb) as (e2 & N2 & _ & C2 & _).
+      destruct (C1 La) as [L1 U1]. destruct (C2 Lb) as [L2 U2]. apply (P2 a b e1 e2); auto. congruence.
+    + intros j e' N. destruct (A j e' N) as (e & _ & _ & _ & F). exact F.
+  - intros j H. destruct (Q3 j H) as (e & N & S). exact (B j e N S H).
+  - intros a H. left. destruct (L a H) as (j & e & e' & N & _ & Lv & _ & U). exists j, e. auto.
+Qed.
+
+(* one slot changed *)
+Lemma ptrans_upd : forall i g st, inv st ->
+  (forall e, nth_error (polls st) i = Some e -> p_uid (g e) < next_uid st /\ (plive (g e) -> plive e /\ p_uid (g e) = p_uid e) /\
+             (p_fn (g e) = true -> p_state (g e) <> Empty) /\
+             (occ_all (QFd i) st = 0 \/ (p_state e = Joblist -> p_state (g e) = Joblist))) ->
+  ptrans st (upd_nth i g (polls st)).
+Proof.
+  intros i g st I G. pose proof I as (I0 & _ & (P1 & P2 & P3) & _).
+  split.
+  - intros j e' N. rewrite nth_upd_nth in N. destruct (Nat.eqb i j) eqn:E.
+    + apply Nat.eqb_eq in E; subst. destruct (nth_error (polls st) j) as [e|] eqn:N0; [|discriminate]. cbn in N. inversion N; subst.
+      exists e. split; [reflexivity|]. destruct (G e N0) as (A & B & C & _). auto.
+    + exists e'. split; [exact N|]. split; [eauto|]. split; [auto|]. eauto.
+  - intros j e N S Hin. rewrite nth_upd_nth, N. destruct (Nat.eqb i j) eqn:E; cbn.
+    + apply Nat.eqb_eq in E; subst. exists (g e). split; [reflexivity|]. destruct (G e N) as (_ & _ & _ & [Z|Z]); [|auto].
+      apply in_occ_all in Hin. lia.
+    + exists e. auto.
+Qed.
+
+Lemma pparked_upd : forall i g st j u,
+  (forall e, nth_error (polls st) i = Some e -> (p_state e = Joblist \/ p_state e = Deleted) ->
+             p_uid (g e) = p_uid e /\ (p_state (g e) = Joblist \/ p_state (g e) = Deleted)) ->
+  pparked st j u -> pparked (set_polls (upd_nth i g (polls st)) st) j u.
+Proof.
+  intros i g st j u G [(e & N & U & S) Z]. split; [|exact Z]. cbn. rewrite nth_upd_nth, N. destruct (Nat.eqb i j) eqn:E; cbn.
+  - apply Nat.eqb_eq in E; subst. destruct (G e N S) as [A B]. exists (g e). split; [reflexivity|]. split; [congruence|exact B].
+  - exists e. auto.
+Qed.
+
+(* growing the table by a zeroed slot *)
+Lemma inv_polls_grow : forall st, inv st -> inv (set_polls (polls st ++ [pslot_zero]) st).
+Proof.
+  intros st I. pose proof I as (I0 & _ & (P1 & P2 & P3) & _ & (_ & _ & Q3 & _) & _).
+  apply inv_set_polls; [exact I| | |].
+  - split; [|split].
+    + intros i e H. apply nth_error_app_new in H. destruct H as [H|[_ ->]]; [eauto|cbn; lia].
+    + intros i j ei ej Hi Hj Li Lj E. apply nth_error_app_new in Hi. apply nth_error_app_new in Hj.
+      destruct Hi as [Hi|[_ ->]]; [|destruct Li as [X|X]; discriminate X]. destruct Hj as [Hj|[_ ->]]; [|destruct Lj as [X|X]; discriminate X]. eauto.
+    + intros i e H. apply nth_error_app_new in H. destruct H as [H|[_ ->]]; [eauto|cbn; discriminate].
+  - intros i H. destruct (Q3 i H) as (e & A & B). exists e. split; [|exact B].
+    rewrite nth_error_app1; [exact A|]. apply nth_error_Some. congruence.
+  - intros a (i & e & A & B & C). left. cbn in A. apply nth_error_app_new in A. destruct A as [A|[_ ->]].
+    + exists i, e. auto.
+    + destruct C as [C|C]; discriminate C.
+Qed.
+Lemma pparked_grow : forall st i u, pparked st i u -> pparked (set_polls (polls st ++ [pslot_zero]) st) i u.
+Proof.
+  intros st i u [(e & A & B) C]. split; [|exact C]. exists e. split; [|exact B]. cbn.
+  rewrite nth_error_app1; [exact A|]. apply nth_error_Some. congruence.
+Qed.
+
+(* an EMPTY slot becomes a new registration *)
+Lemma inv_poll_activate : forall i enew e0 st, inv st ->
+  nth_error (polls st) i = Some e0 -> p_state e0 = Empty ->
+  p_state enew = Active -> p_uid enew < next_uid st ->
+  (forall j e, nth_error (polls st) j = Some e -> p_uid e < p_uid enew) ->
+  ~ gone (out st) 2 (p_uid enew) ->
+  inv (set_polls (upd_nth i (fun _ => enew) (polls st)) st).
+Proof.
+  intros i enew e0 st I Hn He Ha Hu Hf Hg. pose proof I as (I0 & _ & (P1 & P2 & P3) & _ & (_ & _ & Q3 & _) & _).
+  assert (N : forall j e', nth_error (upd_nth i (fun _ => enew) (polls st)) j = Some e' ->
+              (j <> i /\ nth_error (polls st) j = Some e') \/ (j = i /\ e' = enew)).
+  { intros j e' H. rewrite nth_upd_nth in H. destruct (Nat.eqb i j) eqn:E.
+    - apply Nat.eqb_eq in E; subst. rewrite Hn in H. cbn in H. inversion H; subst. right. auto.
+    - apply Nat.eqb_neq in E. left. split; [congruence|exact H]. }
+  apply inv_set_polls; [exact I| | |].
+  - split; [|split].
+    + intros j e' H. destruct (N j e' H) as [[_ A]|[_ ->]]; [eauto|exact Hu].
+    + intros a b ea eb Ha' Hb La Lb E.
+      destruct (N a ea Ha') as [[Na A]|[-> ->]]; destruct (N b eb Hb) as [[Nb B]|[-> ->]]; auto.
+      * eauto.
+      * specialize (Hf a ea A). lia.
+      * specialize (Hf b eb B). lia.
+    + intros j e' H F. destruct (N j e' H) as [[_ A]|[_ ->]]; [eauto|congruence].
+  - intros j H. destruct (Q3 j H) as (e & A & B). assert (j <> i) by (intros ->; congruence).
+    exists e. split; [|exact B]. rewrite nth_upd_nth_other; auto.
+  - intros a (j & e' & A & B & C). cbn in A. destruct (N j e' A) as [[_ A1]|[_ ->]].
+    + left. exists j, e'. auto.
+    + right. subst a. exact Hg.
+Qed.
+
+(* the kernel's interest list is not read by the invariant *)
+Lemma opframe_same_core : forall st st', same_core st st' -> stop st' = stop st -> opframe st st'.
+Proof. intros st st' [] S. apply opframe_same; auto. exists []. now rewrite sc_out0. Qed.
+Lemma k_add_same : forall a b c st, same_core st (snd (k_add a b c st)) /\ stop (snd (k_add a b c st)) = stop st.
+Proof. intros. unfold k_add. destruct (kfind _ _); cbn; split; try reflexivity; constructor; reflexivity. Qed.
+Lemma k_mod_same : forall a b c st, same_core st (snd (k_mod a b c st)) /\ stop (snd (k_mod a b c st)) = stop st.
+Proof. intros. unfold k_mod. destruct (kfind _ _); cbn; split; try reflexivity; constructor; reflexivity. Qed.
+Lemma k_del_same : forall a st, same_core st (snd (k_del a st)) /\ stop (snd (k_del a st)) = stop st.
+Proof. intros. unfold k_del. destruct (kfind _ _); cbn; split; try reflexivity; constructor; reflexivity. Qed.
+
+(* ------------------------------------------------------------------ qb_loop_poll_add (and the signal pipe's entry) *)
+Lemma poll_slot_spec : forall st, inv st ->
+  inv (snd (poll_slot st)) /\ opframe st (snd (poll_slot st)) /\ next_uid (snd (poll_slot st)) = next_uid st /\
+  out (snd (poll_slot st)) = out st /\
+  exists e0, nth_error (polls (snd (poll_slot st))) (fst (poll_slot st)) = Some e0 /\ p_state e0 = Empty.
+Proof.
+  intros st I. unfold poll_slot. destruct (find_idx _ (polls st)) as [i|] eqn:F; cbn [fst snd].
+  - split; [exact I|]. split; [apply opframe_refl|]. split; [reflexivity|]. split; [reflexivity|].
+    apply find_idx_some in F. destruct F as (e0 & A & B). exists e0. split; [exact A|]. destruct (p_state e0); cbn in B; congruence.
+  - split; [apply inv_polls_grow; exact I|]. split; [apply opframe_set_polls; apply pparked_grow|].
+    split; [reflexivity|]. split; [reflexivity|]. exists pslot_zero. split; [|reflexivity]. cbn. rewrite nth_error_app2 by lia.
+    now rewrite Nat.sub_diag.
+Qed.
+
+Lemma poll_add_gen_ok : forall g p fd ev key st, inv st ->
+  inv (snd (poll_add_gen g p fd ev key st)) /\ opframe st (snd (poll_add_gen g p fd ev key st)).
+Proof.
+  intros g p fd ev key st I. unfold poll_add_gen.
+  destruct (poll_slot_spec st I) as (I1 & F1 & U1 & O1 & (e0 & N0 & E0)). destruct (poll_slot st) as [i s1]. cbn [fst snd] in *.
+  unfold fresh_uid. set (n := next_uid s1). set (s2 := set_next_uid (n + 1) s1).
+  assert (I2 : inv s2) by (apply inv_bump_uid; exact I1).
+  assert (RO2 : rand_ok s2) by (destruct I2 as (_ & _ & _ & _ & _ & _ & _ & X & _); exact X).
+  destruct (draw_check_p_spec 200 0 s2 RO2) as (RO3 & SB3).
+  destruct (draw_check_p 200 0 s2) as [c s3]. cbn [fst snd] in *.
+  assert (I3 : inv s3) by (eapply inv_sbr; eauto).
+  match goal with |- context [k_add ?a ?b ?d s3] => destruct (k_add_same a b d s3) as [SC4 ST4]; destruct (k_add a b d s3) as [res s4] end.
+  cbn [fst snd] in *.
+  assert (I4 : inv s4) by (eapply inv_same_core; eauto).
+  assert (P4 : polls s4 = polls s1) by (rewrite (sc_polls _ _ SC4), (sb_polls _ _ SB3); reflexivity).
+  assert (U4 : next_uid s4 = n + 1) by (rewrite (sc_uid _ _ SC4), (sb_uid _ _ SB3); reflexivity).
+  assert (O4 : out s4 = out s1) by (rewrite (sc_out _ _ SC4), (sb_out _ _ SB3); reflexivity).
+  assert (F4 : opframe st s4).
+  { apply (opframe_trans st s1); [exact F1|]. apply (opframe_trans s1 s2); [apply opframe_bump_uid|].
+    apply (opframe_trans s2 s3); [apply opframe_sbr; exact SB3|]. apply opframe_same_core; auto. }
+  assert (PK : forall s (gg : pslot -> pslot), polls s = polls s1 -> (forall x, occ_all x s = occ_all x s4) ->
+               forall j u, pparked s4 j u -> pparked (set_polls (upd_nth i gg (polls s)) s) j u).
+  { intros s gg Ps Os j u [(e & A & B & C) D]. split; [|unfold occ_all in *; cbn; rewrite <- D; apply Os].
+    assert (j <> i) by (intros ->; rewrite P4, N0 in A; inversion A; subst; destruct C; congruence).
+    exists e. cbn. rewrite nth_upd_nth_other by auto. rewrite Ps, <- P4. auto. }
+  destruct (res =? 0) eqn:R; cbn [snd].
+  - (* added *)
+    set (s5 := emit (EvAdd 2 n p) s4).
+    assert (I5 : inv s5) by (apply inv_emit_neutral; [exact Logic.I|exact I4]).
+    match goal with |- context [upd_nth i ?f _] => set (f0 := f) end.
+    set (enew := f0 e0).
+    assert (EQ : upd_nth i f0 (polls s5) = upd_nth i (fun _ => enew) (polls s5)).
+    { clear. unfold enew, f0. generalize (polls s5). intros l. revert i. induction l; destruct i; cbn; auto. f_equal. auto. }
+    rewrite EQ. split.
+    + apply (inv_poll_activate i enew e0 s5 I5).
+      * change (polls s5) with (polls s4). rewrite P4. exact N0.
+      * exact E0.
+      * reflexivity.
+      * change (next_uid s5) with (next_uid s4). rewrite U4. cbn. lia.
+      * intros j e H. change (polls s5) with (polls s4) in H. rewrite P4 in H. destruct I1 as (_ & _ & (X & _) & _). cbn. apply (X j e H).
+      * cbn [out emit set_out s5 enew f0 p_uid]. intros Hg. apply (gone_neutral (EvAdd 2 n p)) in Hg; [|exact Logic.I].
+        rewrite O4 in Hg. exact (fresh_not_gone s1 2 I1 Hg).
+    + apply (opframe_trans st s4); [exact F4|]. apply (opframe_trans s4 s5); [apply opframe_emit|].
+      apply opframe_set_polls. intros j u H. apply (PK s5 (fun _ => enew)); auto.
+  - (* the driver refused: the slot goes back to EMPTY (entirely cleared once repaired) *)
+    match goal with |- context [upd_nth i ?f _] => set (f0 := f) end.
+    assert (TR : ptrans s4 (upd_nth i f0 (polls s4))).
+    { apply ptrans_upd; [exact I4|]. intros e H. rewrite P4, N0 in H. inversion H; subst e.
+      assert (PF : p_fn e0 = false).
+      { destruct I1 as (_ & _ & (_ & _ & X) & _). destruct (p_fn e0) eqn:PF; [|reflexivity]. exfalso. exact (X i e0 N0 PF E0). }
+      unfold f0. destruct (fx_polladd (fx s4)); cbn.
+      - split; [destruct I4 as (X & _); lia|]. split; [intros [X|X]; discriminate X|]. split; [discriminate|]. right. congruence.
+      - split; [rewrite U4; lia|]. split; [intros [X|X]; discriminate X|]. split; [congruence|]. right. congruence. }
+    destruct (inv_ptrans _ _ I4 TR) as [I5 _]. split; [exact I5|].
+    apply (opframe_trans st s4); [exact F4|]. apply opframe_set_polls. intros j u H. apply (PK s4 f0); auto.
+Qed.
+
+(* ------------------------------------------------------------------ qb_loop_poll_mod *)
+Lemma poll_mod_ok : forall p fd ev key st, inv st ->
+  inv (snd (poll_mod p fd ev key st)) /\ opframe st (snd (poll_mod p fd ev key st)).
+Proof.
+  intros p fd ev key st I. unfold poll_mod.
+  destruct (find_idx _ (polls st)) as [i|]; [|split; [exact I|apply opframe_refl]].
+  destruct (nth_error (polls st) i) as [e|] eqn:N; [|split; [exact I|apply opframe_refl]].
+  destruct (_ || _); [split; [exact I|apply opframe_refl]|].
+  assert (K : exists res s1, (if p_events e =? ev then (0, st) else k_mod fd (poll_to_epoll ev) (p_check e * TWO32 + Z.of_nat i) st) = (res, s1)
+              /\ same_core st s1 /\ stop s1 = stop st).
+  { destruct (p_events e =? ev).
+    - exists 0, st. split; [reflexivity|]. split; [apply same_core_refl|reflexivity].
+    - destruct (k_mod_same fd (poll_to_epoll ev) (p_check e * TWO32 + Z.of_nat i) st) as [A B].
+      destruct (k_mod fd (poll_to_epoll ev) (p_check e * TWO32 + Z.of_nat i) st) as [res s1]. exists res, s1. auto. }
+  destruct K as (res & s1 & -> & SC & ST). cbn [snd].
+  assert (I1 : inv s1) by (eapply inv_same_core; eauto).
+  match goal with |- context [upd_nth i ?f _] => set (f0 := f) end.
+  assert (TR : ptrans s1 (upd_nth i f0 (polls s1))).
+  { apply ptrans_upd; [exact I1|]. intros e' H. unfold f0; cbn. destruct I1 as (_ & _ & (X & _ & Y) & _).
+    split; [eauto|]. split; [auto|]. split; [eauto|]. right. auto. }
+  destruct (inv_ptrans _ _ I1 TR) as [I2 _]. split; [exact I2|].
+  apply (opframe_trans st s1); [apply opframe_same_core; auto|]. apply opframe_set_polls.
+  intros j u H. apply pparked_upd; [|exact H]. intros e' _ S. unfold f0; cbn. auto.
+Qed.
+
+(* ------------------------------------------------------------------ qb_loop_poll_del *)
+Lemma fd_not_live_after : forall i g st e, inv st -> ptrans st (upd_nth i g (polls st)) ->
+  nth_error (polls st) i = Some e -> plive e -> ~ plive (g e) ->
+  ~ live (set_polls (upd_nth i g (polls st)) st) 2 (p_uid e).
+Proof.
+  intros i g st e I TR N LE NL. destruct (inv_ptrans _ _ I TR) as [_ L].
+  intros [[K _]|[[K _]|[[_ H]|[K _]]]]; try discriminate K.
+  destruct (L _ H) as (j & eo & en & N1 & N2 & L1 & L2 & U).
+  assert (j = i) by (destruct I as (_ & _ & (_ & P2 & _) & _); apply (P2 j i eo e N1 N L1 LE U)).
+  subst j. rewrite nth_upd_nth, Nat.eqb_refl, N in N2. cbn in N2. inversion N2; subst. exact (NL L2).
+Qed.
